@@ -129,6 +129,11 @@ func main() {
 		pprof.StartCPUProfile(f)
 		defer pprof.StopCPUProfile()
 	}
+	if *prop == "C17" && os.Getenv("VERIF_C17_CHILD") == "" {
+		// the concurrent driver runs in a child process: a Go runtime fatal error (e.g. "concurrent map read and
+		// map write") kills the process that hits it, and that is an observation, not a harness failure
+		os.Exit(c17Parent(c))
+	}
 	def.run(c)
 	code := run.Finish()
 	pprof.StopCPUProfile()
